@@ -546,3 +546,65 @@ func replay(raw json.RawMessage) (string, bool) {
 	}
 	return res, bad
 }
+
+// Program is a self-contained build used by C18: n statement bodies as functions f0..f(n-1) of one fresh
+// package over a fresh importer, without any process-wide accelerator.
+type Program struct {
+	Name string
+	Run  func() (texts map[string]string, verdicts []string)
+}
+
+// Programs returns count programs of n bodies each, spread over the enumerated families.
+func Programs(n, count int) []Program {
+	var bodies []block
+	var fams []string
+	i := 0
+	each(false, func(family string, v variant, body block) {
+		i++
+		if v.name == "plain" && i%997 == 0 && len(bodies) < n*count {
+			bodies = append(bodies, body)
+			fams = append(fams, family)
+		}
+	})
+	for _, b := range labelBodies() {
+		if len(bodies) < n*count+4 {
+			bodies = append(bodies, b)
+		}
+	}
+	var out []Program
+	for k := 0; k < count; k++ {
+		lo, hi := k*n, (k+1)*n
+		if hi > len(bodies) {
+			hi = len(bodies)
+		}
+		if lo >= hi {
+			break
+		}
+		part := bodies[lo:hi]
+		out = append(out, Program{Name: fmt.Sprintf("c10-bodies[%d:%d]", lo, hi), Run: func() (map[string]string, []string) {
+			imp := ex.Importer(nil)
+			b := gx.New(imp, gx.Options{RealBuiltin: true})
+			var verdicts []string
+			o := gx.Try(func() {
+				xb := ex.NewBuilder(b)
+				sb := st.NewBuilder(xb)
+				for j, body := range part {
+					nErr := len(b.Errs)
+					fo := gx.Try(func() {
+						sb.Func(&st.Func{Name: fmt.Sprintf("f%d", j), Results: []string{"int"}, Body: body})
+					})
+					verdicts = append(verdicts, fmt.Sprintf("f%d:%v:%s:%s", j, fo.Panicked, fo.Msg, strings.Join(b.Errs[nErr:], ";")))
+				}
+			})
+			if o.Panicked {
+				verdicts = append(verdicts, "setup: "+o.Msg)
+			}
+			texts, err := oracle.WriteAll(b.Pkg)
+			if err != nil {
+				verdicts = append(verdicts, "write: "+err.Error())
+			}
+			return texts, verdicts
+		}})
+	}
+	return out
+}
